@@ -262,7 +262,7 @@ def _nested_spec(spec):
 
 def groupby_checks(ctx, project, by_id, flt, canon, rng):
     specs = ["a", "sp.a", "b", "n.x", "sp.n.x", "doc.d", "doc.m.y", "n.z.w", ("a", "b"), ("a", "doc.d"),
-             ("sp.b", "n.x"), None, "callable", "zz"]
+             ("sp.b", "n.x"), None, "callable", "zz", "speed", "docking.site", ("speed", "a")]
     for spec in rng.sample(specs, 5):
         for default in (None, rng.choice([-5, "zzz", 0.25])):
             cur = project.find_jobs(copy.deepcopy(flt)) if flt else project.find_jobs()
